@@ -38,6 +38,7 @@ def fin (st : St) (r : Nat) (x : Except MH.Err MH) : St × String :=
 
 def step (st : St) (line : String) : St × String :=
   let bad := (st, "bad-op")
+  if line.startsWith "@" then (st, "skip") else   -- implementation-only observation (oracle decides)
   match words line with
   | "#" :: _ => (init, "#")
   | ["new", r, num, scaled, track, ksize, seed] =>
